@@ -226,11 +226,17 @@ struct World {
 }
 
 impl World {
-    fn new() -> World {
+    /// host configuration 0: every persistent entry outlives any gap of the run; 1: network-like limits (persistent
+    /// entries outlive their TTL only because the test host restores archived persistent entries on access)
+    fn new(hostcfg: usize) -> World {
         let e = Env::default();
         e.cost_estimate().budget().reset_unlimited();
         e.cost_estimate().disable_resource_limits();
-        e.ledger().with_mut(|l| { l.sequence_number = 0; l.max_entry_ttl = 3_000_000; });
+        e.ledger().with_mut(|l| {
+            l.sequence_number = 0;
+            if hostcfg == 0 { l.min_persistent_entry_ttl = 5_000_000; l.min_temp_entry_ttl = 16; l.max_entry_ttl = 6_000_000; }
+            else { l.min_persistent_entry_ttl = 4096; l.min_temp_entry_ttl = 17280; l.max_entry_ttl = 3_110_400; }
+        });
         let lg = e.register(Logger, ());
         let mut verifiers: std::vec::Vec<Address> = (0..2).map(|_| e.register(MockVerifier, (&lg,))).collect();
         verifiers.push(Address::generate(&e)); // verifier 2: no contract behind the address, every call of it traps
@@ -735,7 +741,7 @@ impl<'a> Tr<'a> {
                          let subs: std::vec::Vec<usize> = match rng.below(5) { 0..=1 => std::vec![], 2..=3 => std::vec![other], _ => std::vec![other, other] };
                          let mut cs = std::vec![Cx::Call(root, 0)]; cs.extend(subs.iter().map(|t| Cx::Call(*t, 0)));
                          let a = self.gen_authz(rng, &cs); self.invoke(&a, root, &subs); }
-            _ => { let k = *rng.pick(&[0u32, 1, 1, 1, 2, 3, 7]); self.advance(k); }
+            _ => { let k = *rng.pick(&[0u32, 1, 1, 1, 2, 3, 7, 1, 2, 20, 100, 17_281, 20_000, 600_000, 4_000_000]); self.advance(k); }
         }
     }
 }
@@ -1053,6 +1059,57 @@ impl<'a> Tr<'a> {
         let two = self.exact(&[s1, s2]); self.check_auth(&two, &[c, Cx::Call(1, 0)]);
     }
 
+    /// persistence: every kind of stored item (rule meta, signers, policies, per-type id lists, fingerprints, next id,
+    /// count, the real policy's threshold) is written, then ONE long ledger gap passes, then everything is asked again.
+    /// Only valid_until may make a rule lapse: three rules expire just before / at / just after the end of the gap.
+    fn sc_persistence(&mut self, rng: &mut Rng, gap: u32) {
+        if !self.start() { return; }
+        let t = self.pick_type(rng);
+        let c = self.ctx_of(rng, t);
+        let (s1, s2, s3, s4) = (Sg::Ext(0, 0), Sg::Del(1), Sg::Ext(1, 1), Sg::Del(2));
+        let adm = self.adm();
+        let typed = self.w.adds;
+        self.add(t, None, &[s1, s2], &[(0, 1), (REAL_THR, 2)]);
+        let dflt = self.w.adds;
+        self.add(Ct::Default, None, &[s3], &[(1, 2)]);
+        self.add(Ct::Call(3), None, &[], &[(2, 3)]);                              // policies only
+        let nw = self.now();
+        let far = self.w.adds; self.add(t, Some(nw + 5_000_000), &[s4], &[]);       // outlives every gap used here
+        let e0 = self.w.adds; self.add(t, Some(nw + gap - 1), &[s4, s1], &[]);      // expires one ledger before the end of the gap
+        let e1 = self.w.adds; self.add(t, Some(nw + gap), &[s4, s2], &[]);          // still valid exactly at the end of the gap
+        let e2 = self.w.adds; self.add(Ct::Default, Some(nw + gap + 1), &[s4, s3], &[]);
+        let _ = (far, e0, e1, e2);
+        self.set_mode(0, typed, &Md { install: true, uninstall: true, can: Pd::Min(1), enf: Pd::True });
+        let asks: std::vec::Vec<(Authz, std::vec::Vec<Cx>)> = std::vec![
+            (self.exact(&[s1, s2]), std::vec![c]), (self.exact(&[s1]), std::vec![c]), (self.exact(&[s3]), std::vec![c, Cx::Call(3, 9)]), (self.exact(&[s4]), std::vec![c]),
+            (self.exact(&[s4, s1]), std::vec![c]), (self.exact(&[s4, s2]), std::vec![c]), (self.exact(&[s4, s3]), std::vec![Cx::Create(1)]), (self.exact(&[]), std::vec![Cx::Call(3, 10)]),
+        ];
+        for (a, cs) in asks.iter() { self.check_auth(a, cs); }
+        // ---- the gap: one call ----
+        self.advance(gap);
+        let order: std::vec::Vec<usize> = { let mut o: std::vec::Vec<usize> = (0..asks.len()).collect(); for i in (1..o.len()).rev() { let j = rng.below(i as u64 + 1) as usize; o.swap(i, j); } o };
+        if rng.chance(1, 2) { for i in order.iter() { self.check_auth(&asks[*i].0, &asks[*i].1); } }
+        self.add(t, None, &[s2, s1], &[(REAL_THR, 1), (0, 7)]);                    // same fingerprint as the first rule: still refused
+        self.add(Ct::Default, None, &[s3], &[(1, 9)]);                            // likewise
+        let fresh = self.w.adds;
+        self.add(t, None, &[s1, s3], &[]);                                        // next id continues, count + 1
+        self.admin(&adm, &Op::AddPolicy(typed, REAL_THR, 1));                      // the real policy is still installed for that rule
+        self.admin(&adm, &Op::AddSigner(dflt, s1));
+        self.admin(&adm, &Op::UpdName(typed, 3));
+        for i in order.iter() { self.check_auth(&asks[*i].0, &asks[*i].1); }
+        self.advance(1);
+        for i in order.iter().take(4) { self.check_auth(&asks[*i].0, &asks[*i].1); }
+        self.invoke(&asks[0].0, 1, &[2]);
+        self.admin(&adm, &Op::RemoveRule(fresh));                                  // count - 1
+        self.admin(&adm, &Op::RemovePolicy(typed, REAL_THR));
+        // a second gap, then once more
+        let gap2 = *rng.pick(&[20u32, 100, 17_281, 20_000, 600_000, 4_000_000]);
+        self.advance(gap2);
+        self.add(t, None, &[s1, s2], &[(0, 1)]);                                   // equals the first rule after the removal above: refused
+        self.add(Ct::Call(2), None, &[s1], &[]);
+        for i in order.iter() { self.check_auth(&asks[*i].0, &asks[*i].1); }
+    }
+
     /// small-scope exhaustive: a table built by a random history, then EVERY subset of the signer universe against
     /// every kind of context (and, for a few subsets, with one invalid signature)
     fn sc_exhaustive(&mut self, rng: &mut Rng, nsig: usize, nkey: usize) {
@@ -1118,7 +1175,7 @@ fn main() {
         let mut r = rng.fork(tidx as u64);
         if !out.wants(tidx) { tidx += 1; continue; }
         let small = !r.chance(1, 5);
-        let mut t = Tr { w: World::new(), items: std::vec![], out: &mut out, nsig: if small { 3 } else { 5 }, nkey: if small { 2 } else { 3 }, npol: if small { 3 } else { 5 } };
+        let mut t = Tr { w: World::new(tidx % 2), items: std::vec![], out: &mut out, nsig: if small { 3 } else { 5 }, nkey: if small { 2 } else { 3 }, npol: if small { 3 } else { 5 } };
         t.advance(10);
         let ss = { let mut s = t.gen_signers(&mut r, 2); if s.is_empty() && !r.chance(1, 8) { s.push(Sg::Del(0)); } s };
         let ps: std::vec::Vec<(usize, u32)> = if r.chance(1, 4) { std::vec![(r.below(t.npol as u64) as usize, 2)] } else { std::vec![] };
@@ -1134,7 +1191,7 @@ fn main() {
     for k in 0..(8 * nsc) {
         let mut r = rng.fork(7000 + tidx as u64);
         if !out.wants(tidx) { tidx += 1; continue; }
-        let mut t = Tr { w: World::new(), items: std::vec![], out: &mut out, nsig: 4, nkey: 3, npol: 4 };
+        let mut t = Tr { w: World::new(tidx % 2), items: std::vec![], out: &mut out, nsig: 4, nkey: 3, npol: 4 };
         let name = match k % 8 {
             7 => { t.sc_fingerprint(&mut r); "fingerprints" }
             6 => { t.sc_threshold(&mut r); "real-threshold-policy" }
@@ -1148,12 +1205,23 @@ fn main() {
         t.finish(name);
         tidx += 1;
     }
+    // ---- persistence across long ledger gaps (both host configurations for every gap) ----
+    let gaps = [20u32, 100, 17_281, 20_000, 600_000, 4_000_000];
+    let npe = if thorough { 10 } else { 1 } * scale;
+    for k in 0..(npe * 2 * gaps.len()) {
+        let mut r = rng.fork(8000 + tidx as u64);
+        if !out.wants(tidx) { tidx += 1; continue; }
+        let mut t = Tr { w: World::new(k % 2), items: std::vec![], out: &mut out, nsig: 4, nkey: 3, npol: 4 };
+        t.sc_persistence(&mut r, gaps[(k / 2) % gaps.len()]);
+        t.finish("persistence-across-ledger-gap");
+        tidx += 1;
+    }
     // ---- small-scope exhaustive enumeration of signer subsets ----
     let nex = if thorough { 24 } else { 2 } * scale;
     for k in 0..nex {
         let mut r = rng.fork(9000 + tidx as u64);
         if !out.wants(tidx) { tidx += 1; continue; }
-        let mut t = Tr { w: World::new(), items: std::vec![], out: &mut out, nsig: 2, nkey: 1, npol: 3 };
+        let mut t = Tr { w: World::new(tidx % 2), items: std::vec![], out: &mut out, nsig: 2, nkey: 1, npol: 3 };
         if thorough && k % 3 == 0 { t.sc_exhaustive(&mut r, 3, 2); } else { t.sc_exhaustive(&mut r, 2, 1 + (k % 2)); }
         t.finish("all-signer-subsets");
         tidx += 1;
